@@ -97,6 +97,11 @@ def rule_a(ctx, out):
             if isinstance(kw.value, ast.Name) and kw.value.id in local_of_key:
                 for k in local_of_key[kw.value.id]:
                     key_to_attrs.setdefault(k, set()).update(attr_of_param.get(kw.arg, set()))
+        literal_name = any(isinstance(a, ast.Constant) and a.value == "PUSH0" for a in c.args)
+        for k in sorted(rset & wset):
+            if k not in key_to_attrs and not (literal_name and k == "name"):
+                out.bad(f"item-key-dropped-in-construct:{k}", f"`{short(c, 70)}` does not pass the parsed \"{k}\" on to the item: items built by this "
+                        f"branch lose the field on serialisation", where(rd, c), {"key": k})
         for k in sorted(key_to_attrs):
             if k not in wset:
                 continue
@@ -321,7 +326,13 @@ def rule_c(ctx, out):
         out.bad("AsmBytecode.__init__:real-value-default", "real_value does not default to value when not given", where(init))
 
 
+def rule_d(ctx, out):
+    from . import C09
+    C09.rule_e(ctx, out, modules=("sfs_generator.asm_contract", "sfs_generator.asm_json", "sfs_generator.parser_asm", "sfs_generator.asm_block"))
+
+
 RULES = [
+    ("C15.d", "per-section containers of the serialiser are fresh", 2, rule_d),
     ("C15.a", "key agreement between parser and serialiser at every level", 25, rule_a),
     ("C15.b", "item name/value change only through the PUSH0 spelling", 5, rule_b),
     ("C15.c", "PUSHLIB renumbering round-trips through real_value", 3, rule_c),
